@@ -162,6 +162,32 @@ def handle : List String → String
       if !distinct descs then "BAD duplicate descriptor" else
       let inDomain := descs.all (·.wfB)
       runToks descs inDomain ops ⟨Cache.empty, [], [], [], []⟩
+  | ["e2e", regions, ops, cached, defined] =>
+    -- the cache of a real client in use (harness/c08.go c08EndToEnd): every cached region is one
+    -- the cluster defined, with the key range it was defined with, and no two of them intersect
+    let parse := fun (s : String) (pfx : Nat) =>
+      let body := String.ofList (s.toList.drop pfx)
+      if body = "-" then [] else (body.splitOn ",").map (fun e => e.splitOn ":")
+    let cs := parse cached 7
+    let ds := parse defined 8
+    if cs.any (·.length ≠ 3) || ds.any (·.length ≠ 3) then "BAD e2e entry" else
+    if ops.contains "err" || ops.contains "endless" then s!"DIFF harness: e2e scenario {ops}" else
+    match cs.find? (fun c => !ds.contains c) with
+    | some c => s!"SPEC key=cached-region-differs-from-its-definition cached={c} {regions}"
+    | none =>
+      -- ranges [start, stop) with "-" = empty key (unbounded stop, lowest start: '-' sorts before every hex digit); hex strings of equal-cased bytes compare like the bytes
+      let hexLt := fun (a b : String) => decide (a.toList < b.toList)
+      let inter := fun (a b : List String) =>
+        let (s1, e1, s2, e2) := (a.getD 1 "", a.getD 2 "", b.getD 1 "", b.getD 2 "")
+        (e2 = "-" || hexLt s1 e2) && (e1 = "-" || hexLt s2 e1)
+      let rec pairs : List (List String) → Option String
+        | [] => none
+        | a :: rest => match rest.find? (inter a) with
+          | some b => some s!"SPEC key=overlap-in-cache-e2e {a} {b}"
+          | none => pairs rest
+      match pairs cs with
+      | some v => v
+      | none => s!"OK tags=e2e,{regions},cached{cs.length}"
   | ["conc", rounds, overlapping, first] =>
     -- puts of pairwise intersecting regions issued at the same instant by several goroutines
     -- (harness/c08.go c08Concurrent): the invariant is about the cache, not about one caller
